@@ -12,16 +12,18 @@ EXTENDS Update, TLC, Json
 
 CONSTANTS MsgsAt,     \* MsgsAt[k]: the messages that may come k-th (k in 1..MaxMsgs)
           SimPre, SimUpd \* RR pools of the random-walk generator (only with -simulate; {} otherwise)
-VARIABLES log, init
+VARIABLES log, init,
+          clean   \* every SOA the message in flight installed so far was strictly greater (RFC 1982)
+                  \* than the serial it replaced (UpdateOps!ApplyFrom, field c)
 
-gvars == <<vars, log, init>>
+gvars == <<vars, log, init, clean>>
 
-GInit == Init /\ log = <<>> /\ init = [rrs |-> rrs, ser |-> ser]
+GInit == Init /\ log = <<>> /\ init = [rrs |-> rrs, ser |-> ser] /\ clean = TRUE
 
 GBegin ==
     /\ pc = "idle" /\ n < MaxMsgs
     /\ \E m \in MsgsAt[n + 1] : msg' = m
-    /\ pc' = "pre" /\ i' = 1 /\ snap' = Cur /\ touched' = FALSE
+    /\ pc' = "pre" /\ i' = 1 /\ snap' = Cur /\ touched' = FALSE /\ clean' = TRUE
     /\ UNCHANGED <<rrs, ser, reply, n>>
 
 \* -simulate: enumerating ~10^4 successor states per message just to pick one is far too slow;
@@ -39,7 +41,7 @@ GBeginSim ==
            us == CASE nu = 0 -> <<>> [] nu = 1 -> <<Pick(SimUpd)>> [] nu = 2 -> <<Pick(SimUpd), Pick(SimUpd)>>
                    [] OTHER -> <<Pick(SimUpd), Pick(SimUpd), Pick(SimUpd)>>
        IN  msg' = [pre |-> ps, upd |-> us]
-    /\ pc' = "pre" /\ i' = 1 /\ snap' = Cur /\ touched' = FALSE
+    /\ pc' = "pre" /\ i' = 1 /\ snap' = Cur /\ touched' = FALSE /\ clean' = TRUE
     /\ UNCHANGED <<rrs, ser, reply, n>>
 
 \* lenient reading of 3.2.3 (UpdateOps!PrereqLenient): go on although the RRsets are not equal
@@ -49,28 +51,40 @@ PrereqValuesLenient ==
     /\ pc' = "scan" /\ i' = 1
     /\ UNCHANGED <<rrs, ser, msg, snap, touched, reply, n>>
 
+\* the serial the behaviour ends with has to be one the specification allows (UpdateOps!SerialFits):
+\* where the update installed SOAs in a way that leaves no allowed end serial on this path (an SOA
+\* at the undefined distance 2^31 taken as installed, then moved on), the path is not continued --
+\* the other reading of the same message (SOA ignored) is another behaviour of the generator
+Adv == IF Cur # snap THEN "must" ELSE IF touched THEN "may" ELSE "no"
+Fits(s) == SerialFits(snap, [adv |-> Adv, floor |-> ser, clean |-> clean], s)
+
+GApplyRR == ApplyRR /\ clean' = (clean /\ (ser' = ser \/ SerialGT(ser', ser)))
+GFinish  == Finish /\ Fits(ser')
+
 \* a server that increments the serial even though the update itself installed a higher SOA
 FinishInc ==
     /\ pc = "apply" /\ i > Len(msg.upd)
     /\ touched /\ ser # snap.ser
     /\ ser' = SerialInc(ser)
+    /\ Fits(ser')
     /\ reply' = "NOERROR" /\ pc' = "fin"
     /\ UNCHANGED <<rrs, msg, i, snap, touched, n>>
 
 Entry == [m |-> msg, chosen |-> [rc |-> reply, rrs |-> rrs, ser |-> ser], alts |-> Outcomes(snap, msg, Apex)]
 
 Quiet == UNCHANGED <<log, init>>
+Same  == UNCHANGED clean
 GNext ==
     \/ GBegin /\ Quiet
     \/ GBeginSim /\ Quiet
-    \/ CheckPrereq /\ Quiet
-    \/ PrereqValues /\ Quiet
-    \/ PrereqValuesLenient /\ Quiet
-    \/ Prescan /\ Quiet
-    \/ ApplyRR /\ Quiet
-    \/ Finish /\ Quiet
-    \/ FinishInc /\ Quiet
-    \/ Deliver /\ log' = Append(log, Entry) /\ init' = init
+    \/ CheckPrereq /\ Quiet /\ Same
+    \/ PrereqValues /\ Quiet /\ Same
+    \/ PrereqValuesLenient /\ Quiet /\ Same
+    \/ Prescan /\ Quiet /\ Same
+    \/ GApplyRR /\ Quiet
+    \/ GFinish /\ Quiet /\ Same
+    \/ FinishInc /\ Quiet /\ Same
+    \/ Deliver /\ log' = Append(log, Entry) /\ init' = init /\ Same
 
 GSpec == GInit /\ [][GNext]_gvars
 
